@@ -58,3 +58,87 @@ Definition VerifyRange (now drift : Z) (tv : hdr -> hdr -> tvres) (t : hdr) (l :
   | [] => ([], Some (VErr REmptyRange false))
   | _ => verify_range_loop now drift tv true t l
   end.
+
+(** * Extension (audit follow-up C01/C02): the result of the header type's own
+    Verify as a Go OBJECT.  verify.go Verify() does [errors.As(err, &verErr)], which
+    hands out the very *VerifyError the header type returned.  Until /repo dd31b07
+    (finding F32) a non-adjacent failure wrote [verErr.SoftFailure = true] into that
+    object; now Verify returns a soft copy [&VerifyError{Reason: verErr.Reason,
+    SoftFailure: true}] and the memory below is only ever READ (the theorems of
+    Props/C01_more.v prove that no call writes).  The shapes below add what the pure
+    [tvres] cannot express: the identity of a wrapper, a typed-nil *VerifyError, and
+    a *VerifyError INSTANCE that the type keeps (a package-level error value)
+    and returns again - its SoftFailure field is a memory cell. *)
+Inductive tvx :=
+| XOk
+| XPlain (e : N)                          (* not a *VerifyError *)
+| XVerr (soft : bool) (e : N)             (* a fresh bare *VerifyError *)
+| XWrapped (w : N) (soft : bool) (e : N)  (* wrapper number [w] around a fresh *VerifyError *)
+| XTypedNil                               (* error(( *VerifyError)(nil)): non-nil error, nil pointer *)
+| XShared (w : option N) (cell : N) (e : N).
+    (* the *VerifyError instance living in [cell] (Reason = type error [e]), bare or
+       inside wrapper [w]; its SoftFailure is the current content of the cell *)
+
+(** the memory: the SoftFailure field of every kept instance *)
+Definition heap := N -> bool.
+Definition hupd (h : heap) (c : N) (b : bool) : heap := fun x => if x =? c then b else h x.
+
+Inductive xres :=
+| XNil                                              (* nil error *)
+| XErr (r : reason) (soft : bool) (via : option N)  (* a *VerifyError; [via]: the wrapper still reachable from the result *)
+| XNilPtr                                           (* the typed-nil *VerifyError handed back as the error *)
+| XPanic.                                           (* nil pointer dereference in Verify *)
+
+(** Verify() on a memory: result and memory afterwards (code order:
+    mandatory checks, the type's Verify, errors.As, the soft copy for non-adjacent) *)
+Definition Verify_x (now drift : Z) (tv : hdr -> hdr -> tvx) (h : heap) (t u : hdr) : xres * heap :=
+  match verify_mand now drift t u with
+  | Some s => (XErr (RSent s) false None, h)
+  | None =>
+    let adj := adjacent t u in
+    match tv t u with
+    | XOk => (XNil, h)
+    | XPlain e => (XErr (RType e) (negb adj) None, h)
+    | XVerr soft e => (XErr (RType e) (soft || negb adj) None, h)
+    | XWrapped _ soft e => (XErr (RType e) (soft || negb adj) None, h)   (* errors.As: the inner object is returned, the wrapper is gone *)
+    | XTypedNil => if adj then (XNilPtr, h) else (XPanic, h)
+    | XShared _ c e => if adj then (XErr (RType e) (h c) None, h)           (* the type's own object, untouched *)
+                       else (XErr (RType e) true None, h)                    (* /repo dd31b07: a soft COPY; the type's object is not written *)
+    end
+  end.
+
+(** a sequence of calls on one memory *)
+Fixpoint Verify_seq (drift : Z) (tv : hdr -> hdr -> tvx) (h : heap) (calls : list (Z * hdr * hdr)) : list xres * heap :=
+  match calls with
+  | [] => ([], h)
+  | (now, t, u) :: r =>
+    let '(x, h1) := Verify_x now drift tv h t u in
+    let '(xs, h2) := Verify_seq drift tv h1 r in (x :: xs, h2)
+  end.
+
+(** what a result shape is for the pure model, given the memory at the time of the call
+    ([None]: the typed nil, which the pure model has no shape for) *)
+Definition tvx_pure (h : heap) (r : tvx) : option tvres :=
+  match r with
+  | XOk => Some TVOk
+  | XPlain e => Some (TVPlain e)
+  | XVerr s e => Some (TVVerr s e)
+  | XWrapped _ s e => Some (TVWrapped s e)
+  | XTypedNil => None
+  | XShared None c e => Some (TVVerr (h c) e)
+  | XShared (Some _) c e => Some (TVWrapped (h c) e)
+  end.
+
+Definition xres_pure (x : xres) : option (option verr) :=
+  match x with
+  | XNil => Some None
+  | XErr r s _ => Some (Some (VErr r s))
+  | _ => None
+  end.
+
+(** Gallina twin of vhdr.LinkPolicy(trust) (the default type-level Verify of the harness header type) *)
+Definition vlink_tv (trust : N) (t u : hdr) : tvres :=
+  if h_height u =? wrap64 (h_height t + 1) then
+    if h_prev u =? h_id t then TVOk else TVPlain 1
+  else if negb (trust =? 0) && (trust <? sub64 (h_height u) (h_height t)) then TVPlain 2
+  else TVOk.
